@@ -11,6 +11,7 @@ import GasolVerif.Models.EncodingIO
 import GasolVerif.Models.Cmp
 import GasolVerif.Models.MinLen
 import GasolVerif.Models.Realize
+import GasolVerif.Models.Prune
 import GasolVerif.Models.JsonItem
 open GasolVerif
 
@@ -83,7 +84,7 @@ def handle (line : String) : String :=
       | some S => s!"{S.base} {S.stk.length}"
       | none => "ext"
     | none => "error:parse"
-  | ["SPECCHK", block, src, tgt, instrs, deps, scheds] => Spec.handleSpecChk norm3 block src tgt instrs deps scheds
+  | ["SPECCHK", block, src, tgt, instrs, deps, scheds] => Spec.handleSpecChk2 norm3 block src tgt instrs deps scheds
   | ["SPECRUN", seed, stack, block, src, tgt, instrs, deps, sched] => Spec.handleSpecRun seed stack block src tgt instrs deps sched
   | ["REALIZES", src, tgt, instrs, deps, ids] => Spec.handleRealizes src tgt instrs deps ids
   | ["MINLEN", src, tgt, instrs, deps] => Spec.handleMinLen src tgt instrs deps
